@@ -617,6 +617,23 @@ def call_method(ex, st: State, recv: V, name: str, args, kwargs, node):
             st.write_field(recv, '__bytes__', vbytes(z3.Concat(cur.e, b.e)))
             return [(st, NONE)]
     if k == 'tuple':
+        if name == 'index' and len(args) == 1 and not kwargs:
+            # concrete tuple, symbolic item: first position whose element equals the item, ValueError if none does
+            item = st.box(args[0])
+            elems = [st.box(x) for x in recv.py]
+            outs = []
+            bad = st.fork()
+            bad.assume(z3.And(*[e != item for e in elems]) if elems else z3.BoolVal(True))
+            if ex.feasible(bad):
+                outs.append((bad, Raise(ex.mk_exc('ValueError', node))))
+            if elems:
+                st.assume(z3.Or(*[e == item for e in elems]))
+                r = z3.IntVal(len(elems) - 1)
+                for n in range(len(elems) - 2, -1, -1):
+                    r = z3.If(elems[n] == item, z3.IntVal(n), r)
+                if ex.feasible(st):
+                    outs.append((st, vint(r)))
+            return outs
         raise Unsupported(f'tuple.{name}')
     return None
 
